@@ -250,8 +250,8 @@ def replay(case, stats):
 def run(ctx):
     q = ctx.quick
     ctx.units("corpus", unit_corpus, [{"variants": 3 if q else 12, "seed": ctx.seed}])
-    ctx.units("model-documents", unit_model, [{"n": 150 if q else 2500, "seed": ctx.seed, "shard": i} for i in range(4 if q else 16)], procs=16)
-    ctx.units("noisy-documents", unit_noisy, [{"n": 150 if q else 2500, "seed": ctx.seed, "shard": i} for i in range(4 if q else 16)], procs=16)
+    ctx.units("model-documents", unit_model, [{"n": 225 if q else 2500, "seed": ctx.seed, "shard": i} for i in range(8 if q else 16)], procs=16)
+    ctx.units("noisy-documents", unit_noisy, [{"n": 225 if q else 2500, "seed": ctx.seed, "shard": i} for i in range(8 if q else 16)], procs=16)
     ctx.rule = ("base documents: acceptance corpus (good and bad), generated well-formed documents, noisy documents (accepted or rejected), carriage returns only in CRLF; "
                 "each base gets all seven transformations (T1 CRLF, T2 file via TokenScanner(path) and source_event+GherkinEvents, T3 trailing blanks, T4 extra indentation with doc "
                 "strings moved as a block, T5 blank lines, T6 comment lines before keyword/step/tag/row/opening-delimiter lines, T7 final line break) at one / several / all "
